@@ -87,6 +87,20 @@ def model_max(*args, key=None, default=None):
     return max(xs, key=key)
 
 
+def _stable_key(x):
+    """a sort key that does not depend on object addresses"""
+    n = getattr(x, "name", None)
+    if isinstance(n, str):
+        return (0, type(x).__name__, n)
+    if isinstance(x, (int, float, str, bool)) or x is None:
+        return (1, type(x).__name__, repr(x))
+    if isinstance(x, (tuple, list)):
+        return (2, "seq", repr([_stable_key(e) for e in x]))
+    if sym.is_sym(x):
+        return (3, "sym", repr(x))
+    raise TypeError("no stable key")
+
+
 class RandomModel:
     """``random`` with every random decision turned into an explored choice /
     a fresh constrained symbol.  Installed as module attribute ``random``."""
@@ -104,6 +118,13 @@ class RandomModel:
         seq = list(seq)
         if not seq:
             raise IndexError("Cannot choose from an empty sequence")
+        # The real code often draws from list(some_set): the order of the options then depends on object hashes (ids of cost
+        # functions ...) and changes from one run to the next, so "option k" of the exploration would be another element in
+        # the native replay. Every option is explored anyway: present them in a canonical order.
+        try:
+            seq = sorted(seq, key=_stable_key)
+        except Exception:  # noqa - mixed / unorderable keys: keep the order given
+            pass
         return self.env.choice(self._name("choice"), seq)
 
     def random(self):
